@@ -371,7 +371,9 @@ def specRule (docPath : Bytes) (selfCT : Bytes) (hasNext : Bool) (req : Req)
   if clean req.path = docPath then
     o.who == wSelf && o.status == 200 && o.ctype == selfCT && bodyOk o && o.nextReq == none
   else if hasNext then
-    o.who == wNext && o.nextReq == some req && o.same
+    -- handed on UNMODIFIED: the identical request, and nothing written to the response on the way
+    -- (the recording next handler writes nothing: no Content-Type, the recorder's untouched status)
+    o.who == wNext && o.nextReq == some req && o.same && o.ctype == [] && o.status == 200
   else
     o.who == wNone && o.status == 404 && o.nextReq == none
 
